@@ -50,71 +50,11 @@ ASSUMPTIONS = [
 EXPLANATION = "per path: pc ∧ assumptions ∧ ¬(accepted ⇔ oracle) must be unsat; on acceptance output ≡ input cell-wise"
 
 
-# ------------------------------------------------------------------ T1: SeriesSchema × built-in × ignore_na
-def t_series(v, kind, cname, N, ina, pat=None):
-    ser = v.series("x", kind, N, sname="s", labels="l")
-    snap = H.snapshot(ser)
-    mk = O.numeric_check if kind in ("int", "float") else O.string_check
-    cs = mk(v, cname, ina, **({"pat": pat} if pat else {}))
-    fs = O.FieldSpec(kind, nullable=v.bool("nullable"), unique=v.bool("unique"), checks=[cs], name="s",
-                     report_duplicates=v.choice("rd", ["all", "exclude_first", "exclude_last"]))
-    try:
-        schema = O.build_series_schema(pa, Check, fs, v)
-    except ValueError:
-        # argument validation of the constructor (documented: "max_value must not be smaller than min_value")
-        return dict(obs=None, asserts=[("ctor_error_iff_documented", v.holds(_ctor_rejects(v, cs)))], facts=dict(kind="ctor ValueError"))
-    o = H.outcome(lambda: schema.validate(ser))
-    xs, ns = v.cells("x", kind, N, kind in ("float", "str"))
-    spec = z3.And(fs.satisfied(v, xs, ns), z3.Not(_ctor_rejects(v, cs)))
-    asserts = [("verdict", v.iff(o["kind"] == "accept", spec))]
-    if o["kind"] == "accept":
-        asserts.append(("output_equals_input", H.equal_to_snapshot(v, o["out"], snap)))
-    return dict(obs=o, asserts=asserts, facts=dict(kind=o["kind"], reason=o.get("reason")))
+import tmpl  # noqa: E402
 
-
-def _ctor_rejects(v, cs):
-    """documented constructor errors of the built-ins: in_range with min > max (or = when a bound is exclusive)."""
-    if cs.name == "in_range":
-        a, b = v.z(cs.P["a"]), v.z(cs.P["b"])
-        return z3.Or(a > b, z3.And(a == b, z3.Or(z3.Not(v.z(cs.P["imin"])), z3.Not(v.z(cs.P["imax"])))))
-    if cs.name == "str_length":  # documented: at least one of min_value / max_value must be given
-        return z3.BoolVal(cs.P.get("minl") is None and cs.P.get("maxl") is None)
-    return z3.BoolVal(False)
-
-
-# ------------------------------------------------------------------ T2/T3: DataFrameSchema over column arrangements
-KINDS = {"a": "float", "b": "int", "x": "int", "a1": "float", "a2": "float", "ba3": "float", "s": "str"}
-
-
-def t_frame(v, arrangement, strict, ordered, N, opts):
-    arr = [(c, opts.get("kinds", KINDS)[c]) for c in arrangement]
-    df = v.frame(arr, N, labels="l")
-    snap = H.snapshot(df)
-    ca = O.numeric_check(v, opts.get("check_a", "ge"), True, tag="A")
-    cb = O.numeric_check(v, opts.get("check_b", "isin"), True, tag="B")
-    fa = O.FieldSpec("float", nullable=v.bool("nullable"), unique=v.bool("unique_a"), checks=[ca], regex=bool(opts.get("regex")))
-    fb = O.FieldSpec("int", checks=[cb], required=v.bool("req_b") if not opts.get("b_required_concrete") else True)
-    key_a = opts.get("regex") or "a"
-    spec = O.FrameSpec({key_a: fa, "b": fb}, strict=strict, ordered=ordered, unique=opts.get("unique"),
-                       report_duplicates=opts.get("report_duplicates", "all"))
-    o = H.outcome(lambda: spec.build(pa, Check).validate(df))
-    cells = {}
-    for c, k in arr:
-        cells[c] = v.cells(f"{c}_", k, N, k in ("float", "str"))
-    # the label-level part depends on the symbolic `required` flag of b: split on it in the oracle
-    req_b = v.z(fb.required)
-    fb_req, fb_opt = True, False
-    sat = []
-    for req in (True, False):
-        fb.required = req
-        sat.append(spec.satisfied(v, arr, cells))
-    fb.required = v.bool("req_b") if not opts.get("b_required_concrete") else True
-    oracle = z3.If(req_b, sat[0], sat[1])
-    asserts = [("verdict", v.iff(o["kind"] == "accept", oracle))]
-    if o["kind"] == "accept" and strict != "filter":
-        asserts.append(("output_equals_input", H.equal_to_snapshot(v, o["out"], snap)))
-    return dict(obs=o, asserts=asserts, facts=dict(kind=o["kind"], reason=o.get("reason")))
-
+LABELS = ["verdict", "output_equals_input", "ctor_error_iff_documented"]
+t_series = tmpl.pick(tmpl.series_case, LABELS)
+t_frame = tmpl.pick(tmpl.frame_case, LABELS)
 
 ARRANGEMENTS = (["a", "b"], ["b", "a"], ["a"], ["b"], ["a", "b", "x"], ["x", "a", "b"], ["a", "x", "b"])
 
